@@ -16,9 +16,17 @@ class ToGFA1:
       segment_names.append(str(oline))
     a.append(",".join(segment_names))
     overlaps = []
-    for oline in self.captured_edges:
-      gfapy.Field._validate_gfa_field(oline.line.overlap, "alignment_gfa1")
-      overlaps.append(str(oline.line.overlap))
+    captured_path = self.captured_path
+    for i, oline in enumerate(captured_path):
+      if not isinstance(oline.line, gfapy.line.edge.GFA2):
+        continue
+      overlap = oline.line.overlap
+      gfapy.Field._validate_gfa_field(overlap, "alignment_gfa1")
+      if captured_path[i-1] != oline.line.oriented_from or \
+         captured_path[i+1] != oline.line.oriented_to:
+        # the path traverses the edge from its "to" to its "from" segment
+        overlap = overlap.complement()
+      overlaps.append(str(overlap))
     a.append(",".join(overlaps) if overlaps else "*")
     for tn in self.tagnames:
       a.append(self.field_to_s(tn, tag=True))
